@@ -113,6 +113,11 @@ class _Global(ast.NodeTransformer):
                     and not (len(st.orelse) == 1 and isinstance(st.orelse[0], ast.If)):
                 st.test = st.test.operand
                 st.body, st.orelse = st.orelse, st.body
+        # G16: `if c: T = A else: T = B` (the same single target) -> `T = A if c else B`
+        for k, st in enumerate(out):
+            if isinstance(st, ast.If) and len(st.body) == 1 and len(st.orelse) == 1 and isinstance(st.body[0], ast.Assign) and isinstance(st.orelse[0], ast.Assign) \
+                    and len(st.body[0].targets) == 1 and len(st.orelse[0].targets) == 1 and ast.dump(st.body[0].targets[0]) == ast.dump(st.orelse[0].targets[0]):
+                out[k] = ast.copy_location(ast.Assign(targets=[st.body[0].targets[0]], value=ast.IfExp(test=st.test, body=st.body[0].value, orelse=st.orelse[0].value)), st)
         # G2: else after an exiting body is hoisted
         res: list[ast.stmt] = []
         i = 0
